@@ -233,3 +233,42 @@ func VerifC01_FailedBlockingAcquireTouchesNothing() {
 	errC := C.tryLock(ctx)
 	verif.Assert("at_most_one_holder", vHolders(cs) <= 1 && errC != nil)
 }
+
+// VerifC01_LiveLockSurvivesBackendFaults: a live holder; a contender with
+// stale-lock override tries to acquire while the k-th backend operation of its
+// attempt fails (a transient fault): it must not take the lock.
+func VerifC01_LiveLockSurvivesBackendFaults() {
+	lfs, cs := vLockSetup(true)
+	A, B := cs[0], cs[1]
+	ctx := context.Background()
+	verif.Assert("setup_acquire", A.tryLock(ctx) == nil)
+	verif.Advance(5 * time.Millisecond) // the first heartbeat is on disk
+	lfs.reset()
+	// a persistent fault on one kind of operation below the lock directory (e.g. the
+	// heartbeat file is listed but cannot be stat-ed), or two transient faults in a row
+	kinds := []string{"Stat", "Lstat", "OpenFile", "Readdirnames", "Chtimes"}
+	persistent := verif.Bool("persistentFault")
+	kind := kinds[verif.Choice("faultyOperation", len(kinds))]
+	failAt := 0
+	if !persistent {
+		failAt = verif.Len("failAt", 2, 16) // (the Mkdir itself failing is an ordinary error)
+	}
+	lockDir := A.lock.lockPath()
+	count := 0
+	lfs.before = func(op *vOp) error {
+		count++
+		below := len(op.path) > len(lockDir) && op.path[:len(lockDir)] == lockDir
+		if persistent && below && op.name == kind {
+			return pathErr(op.name, op.path, 5) // EIO
+		}
+		if !persistent && (count == failAt || count == failAt+1) {
+			return pathErr(op.name, op.path, 5)
+		}
+		return nil
+	}
+	err := B.tryLock(ctx)
+	lfs.before = nil
+	verif.Assert("live_lock_is_not_taken_over", err != nil && vHolders(cs) <= 1)
+	_, _, statErr := lfs.LstatIfPossible(A.lock.lockPath())
+	verif.Assert("live_lock_survives", statErr == nil)
+}
